@@ -32,6 +32,14 @@ CHECKS['C19'] = dict(
     level='proof',
     text='Theorems in Coq: the generated connection table admits only GOAWAY in CLOSED and GOAWAY closes from every state (by computation); CLOSED is absorbing under every operation, hence for every history of API calls and received frames (induction, unbounded); every emitting / stream-opening API call (10 calls) raises and appends nothing on a closed connection; received frames handled through the state machine raise without appending; a received GOAWAY empties the pending output. Two refuted call patterns (acknowledge_received_data, naked CONTINUATION for a reset stream) are known findings with vm_compute witnesses replayed on the real code.',
     design='7.C19', technique='Coq invariant by induction over histories + compositional per-handler provers + table computation + differential correspondence')
+CHECKS['C04'] = dict(
+    level='proof',
+    text='Theorems in Coq over the connection model and the AST-translated window kernels: remote_flow_control_window is the minimum of the two advertised windows; increment_flow_control_window changes the connection window by exactly the increment of the WINDOW_UPDATE it emits, and any raising window-changing call (range, state machine, overflow, unknown stream) leaves every inbound window and the output unchanged; DATA overrunning the advertised connection window is FLOW_CONTROL_ERROR (code 3), DATA that fits passes and consumes exactly its flow-controlled length; the stream-level check is exact. Flow-heavy programs plus directed programs with streams in every state and acknowledged INITIAL_WINDOW_SIZE changes are compared with the model on all flow-control state; an oracle recomputes the advertised connection window from the wire history.',
+    design='7.C04', technique='Coq theorems over connection model + translated kernels + differential correspondence with directed state-zoo programs')
+CHECKS['C09'] = dict(
+    level='proof',
+    text='Theorems in Coq: get_next_available_stream_id (the function translated from the source) returns, for every watermark, the least unused id of the endpoint parity, or NoAvailableStreamIDError exactly beyond 2^31-1 (lia, all integers); a stream is opened only with an id above the watermark of its direction and of the required parity, a refused id changes nothing (c = c); classification of a too-low peer id into stream error / STREAM_CLOSED / PROTOCOL_ERROR; both watermarks are monotone over EVERY history (induction over all operations, unbounded); PRIORITY frames leave watermarks and stream tables untouched. The 2^31-1 upper bound for user-chosen ids is refuted (known finding F-C09-1).',
+    design='7.C09', technique='Coq: kernel theorem by lia + invariant by induction over histories (compositional prover) + differential correspondence')
 NA_REASON = {}
 def main():
     checks = []
